@@ -55,14 +55,22 @@ fn case_grid(t: &mut Tape, info: &mut CaseInfo) -> Result<(), String> {
         }
     };
     let (ar, od, cs, hp) = (value(t), value(t), value(t), value(t));
-    let with_mods = t.coin();
-    let b = base(mode, is_convert, &mods, clock).ar(ar, with_mods).od(od, with_mods).cs(cs, with_mods).hp(hp, with_mods);
+    // one flag per attribute: they are independent settings (and the code paths differ per attribute)
+    let (with_ar, with_od, with_cs, with_hp) = match t.weighted(&[2, 2, 4]) {
+        0 => (false, false, false, false),
+        1 => (true, true, true, true),
+        _ => (t.coin(), t.coin(), t.coin(), t.coin()),
+    };
+    let with_mods = with_ar && with_od && with_cs && with_hp;
+    let none_with_mods = !(with_ar || with_od || with_cs || with_hp);
+    let full = |m: &ModsSpec, c: Option<f64>, ar: f32, od: f32| base(mode, is_convert, m, c).ar(ar, with_ar).od(od, with_od).cs(cs, with_cs).hp(hp, with_hp);
+    let b = full(&mods, clock, ar, od);
     info.label(format!("mode={mode:?}"));
-    info.label(if with_mods { "with_mods=true" } else { "with_mods=false" });
+    info.label(if with_mods { "with_mods=all-true" } else if none_with_mods { "with_mods=all-false" } else { "with_mods=mixed" });
     info.label_if(lazer_da, "lazer-DA");
     info.label_if(clock.is_some(), "custom-clock");
     if info.want_sample {
-        info.sample = Some(json!({"mode": mode_name(mode), "is_convert": is_convert, "mods": mods.describe(), "clock_rate": clock, "ar": ar, "od": od, "cs": cs, "hp": hp, "with_mods": with_mods}));
+        info.sample = Some(json!({"mode": mode_name(mode), "is_convert": is_convert, "mods": mods.describe(), "clock_rate": clock, "ar": ar, "od": od, "cs": cs, "hp": hp, "with_mods(ar,od,cs,hp)": [with_ar, with_od, with_cs, with_hp]}));
     }
     let built = b.build();
     let hw = b.hit_windows();
@@ -80,24 +88,24 @@ fn case_grid(t: &mut Tape, info: &mut CaseInfo) -> Result<(), String> {
     }
     let in_unit = |v: f32| (0.0..=10.0).contains(&v);
     // round trip of values supplied with with_mods = true
-    if with_mods {
-        if in_unit(ar) && (built.ar - f64::from(ar)).abs() > EPS {
+    {
+        if with_ar && in_unit(ar) && (built.ar - f64::from(ar)).abs() > EPS {
             return Err(format!("AR {ar} supplied with_mods=true is reported as {}", built.ar));
         }
-        if in_unit(od) && (built.od - f64::from(od)).abs() > EPS {
+        if with_od && in_unit(od) && (built.od - f64::from(od)).abs() > EPS {
             return Err(format!("OD {od} supplied with_mods=true is reported as {}", built.od));
         }
-        if in_unit(cs) && (built.cs - f64::from(cs)).abs() > EPS {
+        if with_cs && in_unit(cs) && (built.cs - f64::from(cs)).abs() > EPS {
             return Err(format!("CS {cs} supplied with_mods=true is reported as {}", built.cs));
         }
-        if in_unit(hp) && (built.hp - f64::from(hp)).abs() > EPS {
+        if with_hp && in_unit(hp) && (built.hp - f64::from(hp)).abs() > EPS {
             return Err(format!("HP {hp} supplied with_mods=true is reported as {}", built.hp));
         }
         info.comparisons += 4;
     }
     // monotonicity in OD / AR
     let step = (t.range(1, 16) as f32) * 0.25;
-    let harder = base(mode, is_convert, &mods, clock).ar(ar + step, with_mods).od(od + step, with_mods).cs(cs, with_mods).hp(hp, with_mods).hit_windows();
+    let harder = full(&mods, clock, ar + step, od + step).hit_windows();
     if harder.ar > hw.ar + EPS {
         return Err(format!("preempt grows with AR: AR {ar} -> {} gives {} -> {}", ar + step, hw.ar, harder.ar));
     }
@@ -116,18 +124,22 @@ fn case_grid(t: &mut Tape, info: &mut CaseInfo) -> Result<(), String> {
     let r1 = *t.pick(&[0.5, 0.75, 1.0, 1.37, 1.5, 2.0, 0.01, 100.0, 3.3]);
     let r2 = t.float(0.5, 2.0);
     for r in [r1, r2] {
-        let other = base(mode, is_convert, &mods, Some(r)).ar(ar, with_mods).od(od, with_mods).cs(cs, with_mods).hp(hp, with_mods).hit_windows();
-        let one = base(mode, is_convert, &mods, Some(1.0)).ar(ar, with_mods).od(od, with_mods).cs(cs, with_mods).hp(hp, with_mods).hit_windows();
+        let other = full(&mods, Some(r), ar, od).hit_windows();
+        let one = full(&mods, Some(1.0), ar, od).hit_windows();
         let rel = |a: f64, b: f64| (a - b).abs() <= EPS * a.abs().max(b.abs()).max(1.0);
-        if with_mods {
-            // values already consider mods: windows must not depend on the clock rate
-            if !rel(other.ar, one.ar) || (mode != GameMode::Mania && !rel(other.od_great, one.od_great)) {
-                return Err(format!("with_mods=true but windows depend on clock rate {r}: {other:?} vs {one:?}"));
+        // a value that already considers mods must give windows that do not depend on the clock rate
+        if with_ar {
+            if !rel(other.ar, one.ar) {
+                return Err(format!("AR with_mods=true but preempt depends on clock rate {r}: {} vs {}", other.ar, one.ar));
+            }
+        } else if !rel(other.ar * r, one.ar) {
+            return Err(format!("preempt does not scale inversely with clock rate {r}: {} * {r} vs {}", other.ar, one.ar));
+        }
+        if with_od {
+            if mode != GameMode::Mania && (!rel(other.od_great, one.od_great) || other.od_ok.zip(one.od_ok).is_some_and(|(a, b)| !rel(a, b))) {
+                return Err(format!("OD with_mods=true but hit windows depend on clock rate {r}: {other:?} vs {one:?}"));
             }
         } else {
-            if !rel(other.ar * r, one.ar) {
-                return Err(format!("preempt does not scale inversely with clock rate {r}: {} * {r} vs {}", other.ar, one.ar));
-            }
             if mode != GameMode::Mania {
                 if !rel(other.od_great * r, one.od_great) {
                     return Err(format!("great window does not scale inversely with clock rate {r}: {} vs {}", other.od_great, one.od_great));
@@ -152,7 +164,7 @@ fn case_grid(t: &mut Tape, info: &mut CaseInfo) -> Result<(), String> {
         info.comparisons += 1;
     }
     // HR / EZ ordering (values in [0, 10], with_mods = false, same everything else)
-    if !with_mods && in_unit(ar) && in_unit(od) && in_unit(cs) && in_unit(hp) && !lazer_da {
+    if none_with_mods && in_unit(ar) && in_unit(od) && in_unit(cs) && in_unit(hp) && !lazer_da {
         let rate_bits = bits & (DT | HT);
         let get = |b: u32| {
             let m = ModsSpec { bits: rate_bits | b, repr: mods.repr, extras: Vec::new() };
@@ -179,7 +191,7 @@ fn case_grid(t: &mut Tape, info: &mut CaseInfo) -> Result<(), String> {
         info.label("hr-ez-ordering");
     }
     info.nontrivial = od != 5.0 && (bits != 0 || clock.is_some_and(|c| c != 1.0));
-    info.set_key(&format!("{mode:?}{is_convert}{mods:?}{clock:?}{ar}{od}{cs}{hp}{with_mods}{step}{r1}{r2}"));
+    info.set_key(&format!("{mode:?}{is_convert}{mods:?}{clock:?}{ar}{od}{cs}{hp}{with_ar}{with_od}{with_cs}{with_hp}{step}{r1}{r2}"));
     Ok(())
 }
 
@@ -193,6 +205,27 @@ fn case_calculators(t: &mut Tape, info: &mut CaseInfo) -> Result<(), String> {
     let built = b.build();
     let hw = b.hit_windows();
     same("build().hit_windows vs hit_windows()", &built.hit_windows, &hw)?;
+    // the same settings handed to the builder through its own setters (not through `difficulty(&D)`)
+    let insp = c.d.clone().inspect();
+    let mut b3 = explicit.attributes().mods(insp.mods.clone());
+    if let Some(r) = insp.clock_rate {
+        b3 = b3.clock_rate(r);
+    }
+    if let Some(v) = insp.ar {
+        b3 = b3.ar(v.value, v.with_mods);
+    }
+    if let Some(v) = insp.od {
+        b3 = b3.od(v.value, v.with_mods);
+    }
+    if let Some(v) = insp.cs {
+        b3 = b3.cs(v.value, v.with_mods);
+    }
+    if let Some(v) = insp.hp {
+        b3 = b3.hp(v.value, v.with_mods);
+    }
+    same("attributes().<setters>.build() vs attributes().difficulty(&D).build()", &b3.build(), &built)?;
+    same("attributes().<setters>.hit_windows() vs attributes().difficulty(&D).hit_windows()", &b3.hit_windows(), &hw)?;
+    info.comparisons += 2;
     let attrs = calc_for_mode(&c.d, &c.map, c.target)?;
     let eq = |name: &str, a: f64, b: f64| if a == b || (a.is_nan() && b.is_nan()) { Ok(()) } else { Err(format!("{name}: calculator stores {a}, builder says {b}")) };
     match &attrs {
@@ -227,7 +260,7 @@ pub fn property() -> Property {
         subchecks: vec![
             SubCheck {
                 name: "builder-grid",
-                rule: "mode x is_convert x mods {NM,HR,EZ,DT,HT,HR+DT,EZ+HT,HR+HT,EZ+DT in u32/intermode/lazer form, lazer DifficultyAdjust} x clock rate {unset, common, [0.5,2], 0.01..100} x AR/OD/CS/HP on the 0.25 grid in [0,10] / [-20,20] / random x both with_mods. Oracle: build().hit_windows == hit_windows(); with_mods=true => AR/OD/CS/HP reported back within 1e-9 for values in [0,10]; windows non-increasing when AR/OD grow by a grid step; with_mods=false => window*r constant (1e-9 rel.) for preempt and osu/taiko/catch OD windows, with_mods=true => independent of r; mania great window within (g1-1/r, g1+2) of its rate-1 value (lazer defines it as ceil(floor(v*r)/r)); HR>=NM>=EZ for AR/OD/CS/HP and HR<=NM<=EZ for windows (values in [0,10], with_mods=false). Non-trivial: OD != 5 and (mods != NM or clock != 1).",
+                rule: "mode x is_convert x mods {NM,HR,EZ,DT,HT,HR+DT,EZ+HT,HR+HT,EZ+DT in u32/intermode/lazer form, lazer DifficultyAdjust} x clock rate {unset, common, [0.5,2], 0.01..100} x AR/OD/CS/HP on the 0.25 grid in [0,10] / [-20,20] / random x an independent with_mods flag per attribute (all false / all true / mixed). Oracle: build().hit_windows == hit_windows(); with_mods=true => AR/OD/CS/HP reported back within 1e-9 for values in [0,10]; windows non-increasing when AR/OD grow by a grid step; with_mods=false => window*r constant (1e-9 rel.) for preempt and osu/taiko/catch OD windows, with_mods=true => independent of r; mania great window within (g1-1/r, g1+2) of its rate-1 value (lazer defines it as ceil(floor(v*r)/r)); HR>=NM>=EZ for AR/OD/CS/HP and HR<=NM<=EZ for windows (values in [0,10], with_mods=false). Non-trivial: OD != 5 and (mods != NM or clock != 1).",
                 quick: 60_000,
                 thorough: 1_500_000,
                 tape_len: 64,
@@ -236,7 +269,7 @@ pub fn property() -> Property {
             },
             SubCheck {
                 name: "calculators-agree",
-                rule: "tiny G-MAP maps (<=8 objects, all modes + converts) x wide G-DIFF. Oracle: OsuDifficultyAttributes.{ar, od(), hp, great/ok/meh_hit_window}, TaikoDifficultyAttributes.{great,ok}_hit_window, CatchDifficultyAttributes.ar are exactly map.attributes().difficulty(&D).build()/hit_windows() of the (converted) map. Non-trivial: non-default settings, mode != mania.",
+                rule: "tiny G-MAP maps (<=8 objects, all modes + converts) x wide G-DIFF. Oracle: OsuDifficultyAttributes.{ar, od(), hp, great/ok/meh_hit_window}, TaikoDifficultyAttributes.{great,ok}_hit_window, CatchDifficultyAttributes.ar are exactly map.attributes().difficulty(&D).build()/hit_windows() of the (converted) map, which in turn equal the builder configured through its own mods/clock_rate/ar/od/cs/hp setters with the same values. Non-trivial: non-default settings, mode != mania.",
                 quick: 8000,
                 thorough: 120_000,
                 tape_len: 700,
